@@ -514,6 +514,64 @@ def _discriminates(cfg, test_owner: ast.AST, target: ast.AST) -> bool:  # noqa: 
     return bool(t) != bool(f)
 
 
+def _gc(ctx: Ctx) -> None:
+    """State-dir GC (reached from every launch() for the other hashes): it may remove a worker's socket/meta/lock only
+    inside the per-hash file lock, and only on the strength of a probe made *inside* that lock -- a probe made before
+    the lock was taken says nothing about a worker another launcher spawned in between."""
+    try:
+        gc = ctx.fn(LAUNCHER + ":gc_state_dir")
+    except AnalysisError:
+        return  # no GC in this tree: nothing removes sockets behind launch()'s back
+    cfg = cfg_of(gc.node)
+    unlinks = [c for c in calls(gc) if last_attr(c) in ("unlink", "remove", "_unlink_stale_socket")]
+    if not unlinks:
+        return
+    lock_defs = [(n, n.value) for n in walk_scope(gc.node) if isinstance(n, (ast.Assign, ast.AnnAssign)) and n.value is not None and isinstance(n.value, ast.Call) and last_attr(n.value) == "FileLock"]
+    if not lock_defs:
+        ctx.fail("RF-LOCK", "gc:unlink-under-filelock", gc, unlinks[0], "gc_state_dir removes socket files without taking the per-hash file lock: it can delete the socket of a worker a concurrent launch() has just spawned")
+        return
+    st_lock, _ctor = one(lock_defs, "probe_lock = FileLock(...)", gc)
+    lock = [t.id for t in (st_lock.targets if isinstance(st_lock, ast.Assign) else [st_lock.target]) if isinstance(t, ast.Name)][0]  # type: ignore[attr-defined]
+    ls = lockset(gc, lock)
+    acq = one([c for c in calls(gc) if last_attr(c) == "acquire" and isinstance(c.func, ast.Attribute) and txt(c.func.value) == lock], "probe_lock.acquire()", gc)
+    bad_unl = [c for c in unlinks if lock not in ls.held(c)]
+    ctx.check(not bad_unl, "RF-LOCK", "gc:unlink-under-filelock", gc, (bad_unl or unlinks)[0],
+              ok=f"all {len(unlinks)} removals run between probe_lock.acquire() and release()",
+              bad="gc_state_dir removes a socket/meta/lock file outside the per-hash file lock: it can delete the socket of a worker a concurrent launch() has just spawned")
+    probes = [c for c in calls(gc) if _resolves(ctx, gc, c, PROBE)]
+    locked_dec: list[tuple[ast.If, set]] = []
+    for n in walk_scope(gc.node):
+        if not isinstance(n, ast.If):
+            continue
+        inside = [p for p in probes if any(x is p for x in ast.walk(n.test))]
+        if not inside or lock not in ls.held(inside[0]):
+            continue
+        v = eval_test(n.test, {txt(p): True for p in inside})
+        v0 = eval_test(n.test, {txt(p): False for p in inside})
+        if v is None or v0 is None or v == v0:
+            raise AnalysisError(f"C33: cannot evaluate the probe decision `{txt(n.test)}` in gc_state_dir")
+        locked_dec.append((n, cfg.test_edges(n, "T" if v else "F")))
+    loops = [n for n in walk_scope(gc.node) if isinstance(n, (ast.For, ast.While)) and any(x is acq for x in ast.walk(n))]
+    heads: set[int] = set()
+    for lp in loops:
+        heads |= set(cfg._done.get(id(lp), []))  # noqa: SLF001 - loop head: the next entry is another iteration
+    u_att: set[int] = set()
+    for c in unlinks:
+        u_att |= cfg.attempt(c)
+    dec_done: set[int] = set()
+    alive_edges: set[tuple[int, int]] = set()
+    for n, alive in locked_dec:
+        dec_done |= cfg.done(n)
+        alive_edges |= set(alive)
+    unprobed = bool(cfg.reach(cfg.done(acq), dec_done | heads, include_start=False) & u_att)
+    alive_removed = bool(locked_dec) and bool(cfg.reach({t for (_u, t) in alive_edges}, heads) & u_att)
+    ctx.check(bool(locked_dec) and not unprobed and not alive_removed, "RF-LOCK", "gc:removal-decided-by-probe-under-filelock", gc, unlinks[0],
+              ok="inside the per-hash lock the socket is probed, and the files are removed only when that probe found no worker",
+              bad=("the files of an entry are removed without a liveness probe made inside the per-hash file lock (the probe, if any, ran before the lock was taken): a worker spawned by a concurrent "
+                   "launch() between that probe and the lock acquisition loses its socket -- its clients get FileNotFoundError and the next launch spawns a second worker" if (not locked_dec or unprobed)
+                   else "the files are removed although the probe inside the lock found a live worker"))
+
+
 def run(ctx: Ctx) -> None:
     ctx.explanation = META["text"]
     ctx.not_decided = ("flock / filelock semantics across processes and the kernel's accept backlog (a connection queued while the loop is leaving); real time; "
@@ -524,4 +582,5 @@ def run(ctx: Ctx) -> None:
         "exceptions of unresolved library calls are not modelled (Appendix A.1)",
     ]
     _launcher(ctx)
+    _gc(ctx)
     _threaded(ctx)
